@@ -1,3 +1,4 @@
+import Fpdec.Kernels.Quant
 import Fpdec.Kernels.IntOps
 import Fpdec.Kernels.DecOps
 import Fpdec.Kernels.DecMul
@@ -612,5 +613,15 @@ theorem kernel_int_div_rounded_decimal (prof : Profile) (tm : Mode) (i : Int) (d
 theorem kernel_int_div_rounded_int (prof : Profile) (tm : Mode) (i j : Int) (n : Nat) (hi : fitsI128 i = true) :
     Gen.K.int_div_rounded_int prof tm i j n = divRoundedIntInt prof tm i j n :=
   Kernels.int_div_rounded_int_eq prof tm i j n hi
+
+/-- the generic `Quantize::quantize` (`self.div_rounded(quant, 0) * quant`), instantiated for the four operand shapes -/
+theorem kernel_quantize_dec_dec (prof : Profile) (tm : Mode) (x q : Dec) (hx : fitsI128 x.coeff = true) (hp : x.nfrac ≤ 38) :
+    Gen.K.quantize_dec_dec prof tm x q = quantize prof tm x q := Kernels.quantize_dec_dec_eq prof tm x q hx hp
+theorem kernel_quantize_dec_int (prof : Profile) (tm : Mode) (x : Dec) (i : Int) (hx : fitsI128 x.coeff = true) (hp : x.nfrac ≤ 38) :
+    Gen.K.quantize_dec_int prof tm x i = quantizeDecInt prof tm x i := Kernels.quantize_dec_int_eq prof tm x i hx hp
+theorem kernel_quantize_int_dec (prof : Profile) (tm : Mode) (i : Int) (q : Dec) (hi : fitsI128 i = true) :
+    Gen.K.quantize_int_dec prof tm i q = quantizeIntDec prof tm i q := Kernels.quantize_int_dec_eq prof tm i q hi
+theorem kernel_quantize_int_int (prof : Profile) (tm : Mode) (i j : Int) (hi : fitsI128 i = true) :
+    Gen.K.quantize_int_int prof tm i j = quantizeIntInt prof tm i j := Kernels.quantize_int_int_eq prof tm i j hi
 
 end Fpdec.Props.C04
